@@ -129,7 +129,7 @@ func sum(d []byte) uint32 {
 func source() filesystem.Filespace {
 	fs, _ := memfs.NewFilespace()
 	fs.WriteFile("a.txt", payload(10, 1), 0666)
-	fs.WriteFile("d/b.txt", payload(5000, 2), 0666)
+	fs.WriteFile("d/b.txt", payload(100000, 2), 0666)
 	fs.WriteFile("d/e/c.txt", payload(0, 3), 0666)
 	fs.MkdirAll("d/empty", 0777)
 	return fs
@@ -303,14 +303,22 @@ func main() {
 						if step == 0 {
 							step = len(data) + 1
 						}
+						// every chunk goes through one reused buffer that is scribbled over
+						// right after the call, as io.Copy reuses its buffer: a writer must
+						// not keep a reference to what it was handed
+						scratch := make([]byte, step)
 						for off := 0; off < len(data); off += step {
 							end := off + step
 							if end > len(data) {
 								end = len(data)
 							}
-							if _, err := w.Write(data[off:end]); err != nil {
+							k := copy(scratch, data[off:end])
+							if _, err := w.Write(scratch[:k]); err != nil {
 								w.Close()
 								return err
+							}
+							for i := range scratch {
+								scratch[i] = 0xEE
 							}
 						}
 						return w.Close()
